@@ -33,6 +33,7 @@ let parse_tree (s : string) : cfg =
         let (sq, ss) = scope_flags (next ()) in
         CLeaf (nat_of_int id, vt, sq, ss)
     | 'O' -> let (sq, ss) = scope_flags (next ()) in COther (sq, ss)
+    | 'W' -> COther (true, true)
     | 'G' ->
         let (sq, ss) = scope_flags (next ()) in
         expect '(';
@@ -155,6 +156,10 @@ let classify (labels : (int * label) list) (qpos : int) (want : failure list) (g
   else if pb_missing && any_reset_before then "reset_all"
   else "query_exact"
 
+(* E<mid>=... : a modifier returned an error *)
+let flag_err (o : outs) : string option =
+  List.find_opt (fun t -> String.length t >= 2 && t.[0] = 'E' && t.[1] >= '0' && t.[1] <= '9') o.flags
+
 let flag_with (o : outs) (p : string) : string option =
   List.find_opt (fun t -> String.length t >= String.length p && String.sub t 0 (String.length p) = p) o.flags
 
@@ -169,7 +174,7 @@ let judge_seq (ins : string list) (outs : string list) : verdict =
         let c = parse_tree tree in
         let labels = List.mapi (fun i t -> (i + 2, label_of o t (i + 2))) ops in
         let h = List.map snd labels in
-        match flag_with o "E" with
+        match flag_err o with
         | Some e -> VDisagree ("modifier-returned-error:" ^ e)
         | None ->
           (* reset handler status *)
@@ -251,7 +256,7 @@ let judge_conc (ins : string list) (outs : string list) : verdict =
         let lo = if has_reset then List.filter (fun (_, n) -> n = None) e_init else e_pre in
         let api_of (f : failure) = match snd f with
           | Some n -> List.exists (fun (_, m) -> m.mid = n && m.mapi) all | None -> false in
-        (match flag_with o "E" with
+        (match flag_err o with
          | Some e -> VDisagree ("modifier-returned-error:" ^ e)
          | None ->
            try
@@ -316,11 +321,61 @@ let judge_conc (ins : string list) (outs : string list) : verdict =
       end
   | _ -> VOk false
 
+(* GATEM|GATEB tree traffic* parked-traffic op : the operation raced with the
+   last message while it was parked inside the group *)
+let judge_gate (ins : string list) (outs : string list) : verdict =
+  match ins with
+  | _ :: tree :: rest when List.length rest >= 2 ->
+      let o = parse_outs outs in
+      if List.mem "BADCASE" o.flags then VOk false
+      else if List.mem "CHILDLOST" o.flags then VDisagree "concurrent-child-produced-no-output"
+      else if List.mem "PANIC" o.flags then VPropfail ("no_panic", "panic in the code under test")
+      else if o.cfgst <> "ok" then VDisagree ("configuration-rejected:" ^ o.cfgst)
+      else begin
+        let c = parse_tree tree in
+        let n = List.length rest in
+        let labels = List.mapi (fun i t -> label_of o t (i + 2)) rest in
+        let rec split k l = if k = 0 then ([], l) else (match l with x :: r -> let (a, b) = split (k - 1) r in (x :: a, b) | [] -> ([], [])) in
+        let (pre, tl) = split (n - 2) labels in
+        let (m, op) = (match tl with [m; op] -> (m, op) | _ -> raise (Bad "gate shape")) in
+        let opidx = n + 1 in
+        (match flag_err o with
+         | Some e -> VDisagree ("modifier-returned-error:" ^ e)
+         | None ->
+           try
+             let fails key =
+               let a = (try Hashtbl.find o.answers key with Not_found -> raise (Bad ("no " ^ key))) in
+               if String.length a > 0 && a.[0] = '!' then raise (Unrepresentable a);
+               parse_failures a in
+             let fq = fails "FQ" in
+             let obs, clause =
+               if is_query op then ([fails ("A" ^ string_of_int opidx); fq], "concurrent_atomic_query")
+               else begin
+                 if (try Hashtbl.find o.answers ("Z" ^ string_of_int opidx) <> "204" with Not_found -> true)
+                 then raise (Bad "reset status");
+                 ([fq], "concurrent_atomic_reset")
+               end in
+             let h1 = pre @ [m; op; Query] and h2 = pre @ [op; m; Query] in
+             if c13_either_ok c h1 h2 obs then begin
+               match flag_with o "RACE=" with
+               | Some r -> VPropfail ("data_race", r)
+               | None -> VOk (List.mem "PARKED=1" o.flags)
+             end else
+               VPropfail (clause, Printf.sprintf "%s message-then-op=%s op-then-message=%s got=%s"
+                            (match flag_with o "EARLY=" with Some e -> e | None -> "")
+                            (String.concat "_" (List.map pr_failures (spec_outputs c h1)))
+                            (String.concat "_" (List.map pr_failures (spec_outputs c h2)))
+                            (String.concat "_" (List.map pr_failures obs)))
+           with Unrepresentable t -> VPropfail ("wellformed_answer", "got=" ^ t))
+      end
+  | _ -> VOk false
+
 let judge _name ins outs =
   try
     match ins with
     | ("SEQ" | "DIR") :: _ -> judge_seq ins outs
-    | "CONC" :: _ -> judge_conc ins outs
+    | ("CONC" | "CONCB") :: _ -> judge_conc ins outs
+    | ("GATEM" | "GATEB") :: _ -> judge_gate ins outs
     | _ -> VDisagree "unknown-case-kind"
   with Bad m -> VDisagree ("unparsable-case:" ^ m)
 
